@@ -177,18 +177,31 @@ func evalNameArray(node *jparse.NameNode, data reflect.Value, env *environment) 
 	return reflect.ValueOf(results), nil
 }
 
+// startsWithVariable reports whether the first step of a path is
+// a variable, possibly filtered by predicates or sorted.
+func startsWithVariable(step jparse.Node) bool {
+	switch step := step.(type) {
+	case *jparse.VariableNode:
+		return true
+	case *jparse.PredicateNode:
+		return startsWithVariable(step.Expr)
+	case *jparse.SortNode:
+		return startsWithVariable(step.Expr)
+	}
+	return false
+}
+
 func evalPath(node *jparse.PathNode, data reflect.Value, env *environment) (reflect.Value, error) {
 	if len(node.Steps) == 0 {
 		return undefined, nil
 	}
 
-	var isVar bool
-	switch step0 := node.Steps[0].(type) {
-	case (*jparse.VariableNode):
-		isVar = true
-	case (*jparse.PredicateNode):
-		_, isVar = step0.Expr.(*jparse.VariableNode)
-	}
+	// A path that starts with a variable is anchored at the
+	// variable's value: its first step is evaluated once, not
+	// once per item of an array context. That also holds when
+	// the variable carries predicates or an order-by clause
+	// ($[0].a, $^(k).a, $v[p]^(k).a).
+	isVar := startsWithVariable(node.Steps[0])
 
 	// Resolve: an array held in an interface (e.g. an array
 	// member) has no length until it is unwrapped.
